@@ -760,6 +760,11 @@ type Treasure interface {
 	IsContentChanged() bool
 
 	IsContentTypeChanged() bool
+
+	// ResetChangeFlags clears every "changed since the last save" flag. The save function calls it, still under
+	// the guard, once it has classified and recorded a save; without it a flag stayed set for the lifetime of the
+	// treasure and every later save of identical data was reported (and written, and published) as a modification.
+	ResetChangeFlags(guardID guard.ID)
 	IsExpirationTimeChanged() bool
 	IsCreatedAtChanged() bool
 	IsCreatedByChanged() bool
@@ -2242,6 +2247,21 @@ func (t *treasure) IsDifferentFrom(guardID guard.ID, otherTreasure Treasure) boo
 func (t *treasure) Save(guardID guard.ID) TreasureStatus {
 	_ = t.Guard.CanExecute(guardID)
 	return t.saveMethod(t, guardID)
+}
+
+func (t *treasure) ResetChangeFlags(guardID guard.ID) {
+	_ = t.Guard.CanExecute(guardID)
+	t.mu.Lock()
+	defer t.mu.Unlock()
+	t.expirationTimeChanged = false
+	t.contentChanged = false
+	t.contentTypeChanged = false
+	t.createdAtChanged = false
+	t.createdByChanged = false
+	t.deletedAtChanged = false
+	t.deletedByChanged = false
+	t.modifiedAtChanged = false
+	t.modifiedByChanged = false
 }
 
 func (t *treasure) IsContentChanged() bool {
